@@ -1,35 +1,43 @@
 ---------------------------- MODULE MCTsDetector ----------------------------
-(* Bounded instance of TrainingSets (detector side): the Env emits set words  *)
-(* in order, foreign words, near-miss words and not-valid gaps in any legal   *)
-(* interleaving; the emitter side stays idle.                                 *)
-EXTENDS TrainingSets, TLC
+(* Bounded instance of TrainingSets (detector side).  The Env builds the      *)
+(* stream from whole sets of several kinds, in any order -- matching sets,    *)
+(* sets of another kind that share the first word, near-miss sets differing   *)
+(* in one later word, foreign sets -- with idle gaps anywhere (between and    *)
+(* inside sets) and a budget of stray, not set-aligned foreign words.         *)
+EXTENDS TrainingSets, TLC, FiniteSets
 
-CONSTANTS MaxWords,     \* valid words per behaviour
-          MaxGaps
+CONSTANTS MaxSets,      \* sets per behaviour
+          MaxGaps, MaxStray
 
 VARIABLES s, in,
-          pos,      \* Env: words of the current set already sent (0 = between sets)
-          run,      \* Env ghost: complete sets sent back to back since the last foreign word
-          due,      \* Env ghost: detections due so far = sum over runs of run \div DetN
+          cur,      \* Env: the set being sent, <<>> or <<[kind, cfg, k]>> (k words already sent)
+          hist,     \* ghost: all valid words so far
           dets,     \* ghost: detections reported
-          nw, ng
-vars == <<s, in, pos, run, due, dets, nw, ng>>
+          nsets, ng, nstray
+vars == <<s, in, cur, hist, dets, nsets, ng, nstray>>
 
-Idle == [start |-> FALSE, rdy |-> TRUE, hr |-> FALSE, lb |-> FALSE, ns |-> FALSE, ow |-> NoWord, done |-> FALSE]
+NoCfg == [hr |-> FALSE, lb |-> FALSE, ns |-> FALSE]
 Rec(w, det, cf) == [start |-> FALSE, rdy |-> TRUE, hr |-> FALSE, lb |-> FALSE, ns |-> FALSE, ow |-> NoWord, done |-> FALSE,
                     iw |-> w, det |-> det, dhr |-> cf.hr, dlb |-> cf.lb, dsd |-> cf.ns]
-NoCfg == [hr |-> FALSE, lb |-> FALSE, ns |-> FALSE]
-Init == /\ s = SInit /\ in = Rec(NoWord, FALSE, NoCfg) /\ pos = 0 /\ run = 0 /\ due = 0 /\ dets = 0 /\ nw = 0 /\ ng = 0
+Init == /\ s = SInit /\ in = Rec(NoWord, FALSE, NoCfg) /\ cur = <<>> /\ hist = <<>> /\ dets = 0
+        /\ nsets = 0 /\ ng = 0 /\ nstray = 0
 
-Cfgs == IF HasCfg THEN {0, 9} ELSE {0}          \* values of the link functionality symbol used by the Env
-SetWordK(k, c) == IF HasCfg /\ k = 2 THEN W(<<SetWords[2][1], c, SetWords[2][3], SetWords[2][4]>>, 0)
-                  ELSE W(SetWords[k], CtrlOf(k))
-Foreign == { W(<<1, 2, 3, 4>>, 0),                               \* plain data
-             W(SetWords[1], (FirstCtrl + 1) % 16),               \* first word with the wrong ctrl mask
-             W(<<SetWords[SetLen][1], SetWords[SetLen][2], SetWords[SetLen][3], (SetWords[SetLen][4] + 1) % 256>>, 0) }
+Cfgs == IF HasCfg THEN {0, 9} ELSE {0}
+ForeignW == W(<<1, 2, 3, 4>>, 0)
+\* word k of a set of the given kind: "m" matching; "o" another kind of set sharing the first word (all
+\* later words differ); "n2".. near-miss: only word SetLen differs; "x" a set sharing nothing
+KindWord(kind, c, k) ==
+    LET good == IF HasCfg /\ k = 2 THEN W(<<SetWords[2][1], c, SetWords[2][3], SetWords[2][4]>>, 0)
+                ELSE W(SetWords[k], CtrlOf(k))
+        off  == W(<<good.d[1], good.d[2], good.d[3], (good.d[4] + 16) % 256>>, 0)
+    IN CASE kind = "m" -> good
+         [] kind = "o" -> IF k = 1 THEN good ELSE off
+         [] kind = "n" -> IF k = SetLen THEN off ELSE good
+         [] kind = "x" -> IF k = 1 THEN W(SetWords[1], (FirstCtrl + 14) % 16) ELSE off
+Kinds == {"m", "o", "n", "x"}
 
 Cycle(w) ==
-    \E det \in (IF s.d.owe # <<>> THEN Bool ELSE {FALSE}) :
+    \E det \in (IF s.d.owe # <<>> THEN {TRUE, FALSE} ELSE {FALSE}) :
       LET cf == IF det /\ HasCfg THEN CHOOSE c \in s.d.owe[1].cfgs : TRUE ELSE NoCfg
           r  == Rec(w, det, cf)
           j  == Judge(s, r)
@@ -37,29 +45,34 @@ Cycle(w) ==
          /\ s' = j.n
          /\ in' = r
          /\ dets' = IF det THEN dets + 1 ELSE dets
+         /\ hist' = IF w.v THEN Append(hist, w) ELSE hist
 
 Gap == /\ ng < MaxGaps
        /\ Cycle([d |-> SetWords[1], c |-> FirstCtrl, v |-> FALSE])
-       /\ ng' = ng + 1 /\ UNCHANGED <<pos, run, due, nw>>
-SetWord == /\ nw < MaxWords
-           /\ \E c \in Cfgs : Cycle(SetWordK(pos + 1, c))
-           /\ nw' = nw + 1
-           /\ IF pos + 1 = SetLen
-              THEN /\ pos' = 0 /\ run' = run + 1
-                   /\ due' = IF (run + 1) % DetN = 0 THEN due + 1 ELSE due
-              ELSE pos' = pos + 1 /\ UNCHANGED <<run, due>>
-           /\ UNCHANGED ng
-ForeignWord == /\ nw < MaxWords
-               /\ \E w \in Foreign : Cycle(w)
-               /\ nw' = nw + 1 /\ pos' = 0 /\ run' = 0 /\ UNCHANGED <<due, ng>>
-Next == Gap \/ SetWord \/ ForeignWord
+       /\ ng' = ng + 1 /\ UNCHANGED <<cur, nsets, nstray>>
+Stray == /\ nstray < MaxStray
+         /\ Cycle(ForeignW)
+         /\ nstray' = nstray + 1 /\ UNCHANGED <<cur, nsets, ng>>
+BeginSet == /\ cur = <<>> /\ nsets < MaxSets
+            /\ \E kind \in Kinds, c \in Cfgs :
+                 /\ Cycle(KindWord(kind, c, 1))
+                 /\ cur' = IF SetLen = 1 THEN <<>> ELSE <<[kind |-> kind, cfg |-> c, k |-> 1]>>
+            /\ nsets' = nsets + 1 /\ UNCHANGED <<ng, nstray>>
+NextOfSet == /\ cur # <<>>
+             /\ Cycle(KindWord(cur[1].kind, cur[1].cfg, cur[1].k + 1))
+             /\ cur' = IF cur[1].k + 1 = SetLen THEN <<>> ELSE <<[cur[1] EXCEPT !.k = cur[1].k + 1]>>
+             /\ UNCHANGED <<nsets, ng, nstray>>
+Next == Gap \/ Stray \/ BeginSet \/ NextOfSet
 Spec == Init /\ [][Next]_vars
 
 -----------------------------------------------------------------------------
-(* Prop *)
-\* C43: one detection for every DetN complete consecutive sets (idle gaps anywhere), none for anything else
-OncePerBurst == dets + Len(s.d.owe) = due
-\* the Ref's own counters agree with what the Env sent
-CountsAgree == s.d.k = pos /\ s.d.cnt = run % DetN
+(* Prop, stated backwards over the history of valid words, without the Ref's counters:             *)
+(* BackRun(p) = number of complete well-formed sets that end, back to back, at valid word p.       *)
+Block(p) == p >= SetLen /\ \A k \in 1..SetLen : IsSetWord(hist[p - SetLen + k], k)
+RECURSIVE BackRun(_)
+BackRun(p) == IF Block(p) THEN 1 + BackRun(p - SetLen) ELSE 0
+Due == Cardinality({p \in 1..Len(hist) : BackRun(p) > 0 /\ BackRun(p) % DetN = 0})
+\* C43: one detection for every DetN complete consecutive sets, never anything else
+OncePerBurst == dets + Len(s.d.owe) = Due
 TypeOK == s.d.k \in 0..(SetLen - 1) /\ s.d.cnt \in 0..(DetN - 1)
 =============================================================================
